@@ -210,7 +210,7 @@ FACTORS = [
     ("boundary", ["none", "per0", "ref1", "per0ref1"]),
     ("n_total", [48, 96, 160]),
     ("ess_ratio", [1.5, 2.0, 4.0]),
-    ("target", ["gauss", "bimodal"]),
+    ("target", ["gauss", "bimodal", "sharp"]),
 ]
 
 
